@@ -443,10 +443,10 @@ class FakeSocket:
             self.world.events.append({'ev': 'peer', 'what': 'deaf'} if self.role == 'main' else {'ev': 'other_fail'})
             self.world.raw.append('send fails: ' + self.failexc)
             raise FAILS[self.failexc](32, 'send failed')
-        data = bytes(data)[:self.sndspace]
+        whole, data = bytes(data[:12]), bytes(data)[:self.sndspace]
         if not self.outacc:
             self.evt = None
-            if data[:12] == b'error_update':
+            if whole == b'error_update':
                 # event or answer to a line "update ..."?  the answer is sent by the request loop itself, an
                 # event passes through the dispatcher (broadcast / activate): look at who is calling
                 f, self.evt = sys._getframe(1), False
